@@ -156,7 +156,8 @@ def run_find(ctx, p):
     if p.get('pat_elements'):
         expected = []
     return dict(st=st, pat=pat, pat0=pat0, idx=idx, mpos=mpos, quats=quats, expected=expected, atol=atol, cell=cell,
-                els=[els[i] for i in order], motif=motif, groups=groups, inv=inv)
+                els=[els[i] for i in order], motif=motif, groups=groups, inv=inv,
+                pel=list(p['pat_elements']) if p.get('pat_elements') else list(MOTIFS[motif][0]))
 
 
 def check_complete(ctx, R, label=''):
@@ -172,7 +173,7 @@ def check_sound(ctx, R, label=''):
     st = R['st']
     n = len(R['pat0'])
     N = len(R['els'])
-    pel = MOTIFS[R['motif']][0]
+    pel = R['pel']
     for m, t in enumerate(R['idx']):
         ok = len(t) == n and len(set(t)) == n and all(0 <= i < N for i in t)
         ctx.require(label + 'match lists distinct existing atoms, one per pattern atom', ok, detail=dict(match=t))
